@@ -36,7 +36,7 @@ MC = {
     "C15": [mc("HuffWM", "MC_HuffWM_k4_quick", "MC_HuffWM_k4"), mc("HuffWM", "MC_HuffWM_k4_codes"), mc("HuffWM", "MC_HuffWM_k2_quick", "MC_HuffWM_k2")],
     "C17": [mc("Words", "MC_Words", workers=6)],
     "C18": [mc("MC_Conc", "MC_Conc_none", workers=4), mc("MC_Conc", "MC_Conc_atomic_pair", workers=4), mc("MC_Conc", "MC_Conc_torn_single", workers=4), mc("MC_Conc", "MC_Conc_lazy_linear", workers=4)],
-    "C19": [mc("MC_LibConv", "MC_LibConv", workers=2), mc("MC_BitVecLines", "MC_BitVecLines", "MC_BitVecLines_thorough")],
+    "C19": [mc("MC_LibConv", "MC_LibConv", workers=2), mc("MC_LibPool", "MC_LibPool", workers=2), mc("MC_LibPool", "MC_LibPool_props", workers=2), mc("MC_BitVecLines", "MC_BitVecLines", "MC_BitVecLines_thorough")],
     "C11": [mc("MC_LibConv", "MC_LibConv", workers=2)],
 }
 
@@ -59,7 +59,7 @@ PLAN = {
     "C12": {"level": "model_checking",
             "campaigns": [{"name": "c12tlc", "tlcgen": "it", "tags": Q}, camp("c12", C.camp_c12)]},
     "C13": {"level": "model_checking", "campaigns": [{"name": "c13tlc", "tlcgen": "qb", "tags": QC}, camp("c13", C.camp_c13)]},
-    "C19": {"level": "model_checking", "campaigns": [{"name": "c19tlc", "tlcgen": "conv", "tags": Q}, camp("c19", C.camp_c19)]},
+    "C19": {"level": "model_checking", "campaigns": [{"name": "c19tlc", "tlcgen": "conv", "tags": Q}, {"name": "c19pool", "tlcgen": "pool", "tags": Q}, camp("c19", C.camp_c19)]},
     "C14": {"level": "model_checking", "campaigns": [camp("c14", C.camp_c14, {"quick": ["opt"], "thorough": ["opt"]})]},
     "C15": {"level": "model_checking", "campaigns": [camp("c15", C.camp_c15, {"quick": ["opt"], "thorough": ["opt"]})]},
     "C16": {"level": "model_checking", "campaigns": [camp("c16", C.camp_c16, {"quick": ["opt"], "thorough": ["opt"]})]},
